@@ -76,3 +76,36 @@ Proof.
             Toy.c13 st (Toy.atom_wfc _) (Toy.atom_wfc _) Toy.iface_c1 Toy.iface_c3 (NoDup_nil _) Hst _).
   split; reflexivity.
 Qed.
+
+(* ---- polyhedral instance (proofs/PolyKeepFacts.v, proofs/PolyDomainFacts.v) ---- *)
+From Coq Require Import QArith.
+Require Import ConstGen Sem Term Poly Tactics PolyDomain PolySpec TermFacts PolyFacts TacticsFacts PolyDomainFacts PolyKeepFacts.
+
+Theorem C15_compose_polyhedral : forall O, lp_spec 0%Q O ->
+  forall (c1 c2 : pcontract O) keep sp od c st,
+  wfpc c1 -> wfpc c2 -> ifpc c1 -> ifpc c2 -> NoDup (opt_list keep) ->
+  poly_compose_tactics O c1 c2 keep sp od = inl (c, st) ->
+  forall t, In t (@c_g (poly_domain O) c1) \/ In t (@c_g (poly_domain O) c2) ->
+  (forall v, In v (term_vars_p t) -> In v (@c_inputvars (poly_domain O) c) \/ In v (@c_outputvars (poly_domain O) c)) ->
+  forall rho, sat_list rho (@c_a (poly_domain O) c) -> sat_list rho (@c_g (poly_domain O) c) -> sat rho t.
+Proof. exact C15_compose_poly. Qed.
+Print Assumptions C15_compose_polyhedral.
+
+Theorem C15_exact_polyhedral : forall O, lp_spec 0%Q O ->
+  forall (c1 c2 : pcontract O) keep sp od c st,
+  wfpc c1 -> wfpc c2 -> ifpc c1 -> ifpc c2 -> NoDup (opt_list keep) ->
+  poly_compose_tactics O c1 c2 keep sp od = inl (c, st) ->
+  list_intersection (@c_outputvars (poly_domain O) c1) (@c_inputvars (poly_domain O) c2) = [] /\
+  list_intersection (@c_inputvars (poly_domain O) c1) (@c_outputvars (poly_domain O) c2) = [] ->
+  (forall rho, sat_list rho (@c_a (poly_domain O) c) <-> sat_list rho (@c_a (poly_domain O) c1) /\ sat_list rho (@c_a (poly_domain O) c2)) /\
+  (forall rho, sat_list rho (@c_a (poly_domain O) c) ->
+     (sat_list rho (@c_g (poly_domain O) c) <-> sat_list rho (@c_g (poly_domain O) c1) /\ sat_list rho (@c_g (poly_domain O) c2))).
+Proof. exact C15_exact_poly. Qed.
+Print Assumptions C15_exact_polyhedral.
+
+Theorem C15_merge_polyhedral : forall O, lp_spec 0%Q O ->
+  forall (c1 c2 m : pcontract O), wfpc c1 -> wfpc c2 -> poly_merge O c1 c2 = inl m ->
+  forall t, In t (@c_g (poly_domain O) c1) \/ In t (@c_g (poly_domain O) c2) ->
+  forall rho, sat_list rho (@c_a (poly_domain O) m) -> sat_list rho (@c_g (poly_domain O) m) -> sat rho t.
+Proof. exact C15_merge_poly. Qed.
+Print Assumptions C15_merge_polyhedral.
